@@ -173,6 +173,7 @@ def expected_edges(lst, labels):
     plus the set of src positions whose fallthrough is a don't-care.
     """
     edges = set()
+    edge_label = {}         # (sec, pos, type) -> target label name
     ft_dontcare = set()     # (sec, pos): fallthrough not judged
     instr_at = {}           # (sec, pos) -> Tok for instructions
     for si in range(len(lst.secs)):
@@ -205,8 +206,10 @@ def expected_edges(lst, labels):
             if t.kind in ("jmp", "jcc"):
                 edges.add((si, t.pos, "branch", t.kind == "jcc", True,
                            resolve(t.target)))
+                edge_label[(si, t.pos, "branch")] = t.target
             elif t.kind == "call":
                 tgt = resolve(t.target)
+                edge_label[(si, t.pos, "call")] = t.target
                 edges.add((si, t.pos, "call", False, True, tgt))
                 calls.append((si, t, nxt_code.pos if nxt_code else None,
                               tgt))
@@ -232,6 +235,8 @@ def expected_edges(lst, labels):
                 edges.add((si, pos, "return", False, True, s))
         else:
             edges.add((si, pos, "return", False, True, ("anon",)))
+    expected_edges.edge_label = edge_label
+    expected_edges.calls = calls
     return edges, ft_dontcare, instr_at
 
 
